@@ -41,7 +41,15 @@ let model input =
         match Stdlib.List.assoc_opt (nat_of_int tid) st.Conc.c_outs with
         | Some o -> outcome_string o | None -> "?") sc.conc in
     let tips = Stdlib.List.rev_map (function Some i -> dec_of_n i | None -> "-2") st.Conc.c_tips in
-    Stdlib.String.concat "," outs ^ "|" ^ Stdlib.String.concat "," tips ^ "|" ^ rows_string st.Conc.c_store
+    (* one ADD event per header that some submitter's Add stored *)
+    let ids = Stdlib.List.sort_uniq compare (Stdlib.List.map (fun (_, sub) -> sub.Store.s_id) sc.conc) in
+    let order = Stdlib.List.fold_left (fun acc (_, sub) -> if Stdlib.List.mem sub.Store.s_id acc then acc else acc @ [sub.Store.s_id]) [] sc.conc in
+    ignore ids;
+    let evs = Stdlib.List.map (fun i ->
+        let n = Stdlib.List.length (Stdlib.List.filter (fun (tid, sub) ->
+            sub.Store.s_id = i && (match Stdlib.List.assoc_opt (nat_of_int tid) st.Conc.c_outs with Some (Chain.Stored _) -> true | _ -> false)) sc.conc) in
+        Printf.sprintf "%s=%d" (dec_of_n i) n) order in
+    Stdlib.String.concat "," outs ^ "|" ^ Stdlib.String.concat "," tips ^ "|" ^ rows_string st.Conc.c_store ^ "|" ^ Stdlib.String.concat "," evs
   end
 
 let rec perms = function
@@ -51,8 +59,15 @@ let rec perms = function
 let spec input obs =
   let sc = parse_scen input in
   match split_on '|' obs with
-  | [outs; tips; rows_s] ->
+  | [outs; tips; rows_s; evs] ->
     let rows = parse_rows rows_s in
+    let ev_bad = Stdlib.List.filter (fun e -> match split_on '=' e with
+        | [i; n] -> let present = Stdlib.List.exists (fun r -> dec_of_n r.Store.id = i) rows in
+          let setup_has = Stdlib.List.exists (fun sub -> dec_of_n sub.Store.s_id = i) sc.h.subs in
+          (* a header stored by this scenario announces itself exactly once; one that was not stored (or was there before) never *)
+          if present && not setup_has then n <> "1" else n <> "0"
+        | _ -> e <> "") (if evs = "" then [] else split_on ',' evs) in
+    if ev_bad <> [] then "FAIL add-events-not-exactly-one-per-stored-header " ^ evs else
     if Stdlib.List.exists (fun o -> o = "P") (split_on ',' outs) then "FAIL panic " ^ outs
     else if not (Crash.struct_validb rows) then "FAIL two-longest-at-one-height-or-broken-chain " ^ rows_s
     else begin
